@@ -35,7 +35,7 @@ func init() {
 			"the strict validator harness/ref/smf.go (header length 6, ntrks == number of MTrk chunks, exact chunk lengths, exactly one end-of-track and last, canonical VLQs of at most 4 bytes, running status only directly after a channel event of the same track, no alien chunks, no trailing bytes)",
 			"for deltas above 0x0FFFFFFF (5-byte form accepted by the API) only the round trip is required, not validity (statement)",
 		},
-		Require: []string{"writefile_onto_existing", "files_validated", "vlq_values", "vlq_5byte_values", "bytes_emitted", "determinism_checks", "chunk_boundary_files", "length_vlq_boundaries", "running_status_events", "body_sizes_swept", "write_change_write_values"},
+		Require: []string{"writefile_onto_existing", "writeto_file_at_offset", "files_validated", "vlq_values", "vlq_5byte_values", "bytes_emitted", "determinism_checks", "chunk_boundary_files", "length_vlq_boundaries", "running_status_events", "body_sizes_swept", "write_change_write_values"},
 		Run:     runC03,
 	})
 }
@@ -203,6 +203,63 @@ func runC03(c *mon.Ctx) {
 		}
 		if _, derr := ref.Decode(got, ref.DecodeOpts{Strict: true}); derr != nil {
 			c.Violation("strict-invalid", fmt.Sprintf("the file written by WriteFile is not a valid SMF 1.0 file: %v", derr), in, nil, derr.Error())
+		}
+	})
+
+	// ---- WriteTo handed an *os.File that is not at offset 0: behind a foreign header (RIFF/RMID), several
+	// values one after the other into one open file, a file opened for appending that already has content
+	c.Each("writeto-file-at-offset", c.N(400, 20_000), func(i int64, r *mon.Rand) {
+		if c.Dir == "" {
+			return
+		}
+		path := filepath.Join(c.Dir, fmt.Sprintf("c03-offset-%d.bin", c.Shard))
+		defer os.Remove(path)
+		prefix := r.Bytes(r.Pick(1, 2, 12, 20, 512, 4096, 5000))
+		nvals := r.Range(1, 3)
+		appendMode := i%3 == 2
+		in := map[string]any{"prefix_bytes": len(prefix), "values": nvals, "opened_with_O_APPEND": appendMode}
+		var f *os.File
+		var err error
+		if appendMode {
+			if err = os.WriteFile(path, prefix, 0o644); err == nil {
+				f, err = os.OpenFile(path, os.O_WRONLY|os.O_APPEND, 0o644)
+			}
+		} else {
+			if f, err = os.Create(path); err == nil {
+				_, err = f.Write(prefix)
+			}
+		}
+		if err != nil {
+			return
+		}
+		want := append([]byte(nil), prefix...)
+		for k := 0; k < nvals; k++ {
+			a := buildHistory(r, 0x0FFFFFFF, false)
+			b := c03Check(c, a.s, a.sh, map[string]any{"history": a.desc}, true)
+			if b == nil {
+				f.Close()
+				return
+			}
+			var n int64
+			if c.Guard("panic:WriteTo(file)", in, func() { n, err = a.s.WriteTo(f) }) {
+				f.Close()
+				return
+			}
+			if err != nil || n != int64(len(b)) {
+				c.Violation("writeto-file", fmt.Sprintf("WriteTo(*os.File at offset %d) = (%d, %v), the value has %d bytes", len(want), n, err, len(b)), in, len(b), n)
+				f.Close()
+				return
+			}
+			want = append(want, b...)
+		}
+		f.Close()
+		got, rerr := os.ReadFile(path)
+		if rerr != nil {
+			return
+		}
+		c.Count("writeto_file_at_offset", 1)
+		if !bytes.Equal(got, want) {
+			c.Violation("writeto-file-bytes", fmt.Sprintf("%d value(s) written with WriteTo into an open file behind %d bytes of other data: the file holds %d bytes, expected %d (prefix + exactly the bytes WriteTo emits into a buffer)", nvals, len(prefix), len(got), len(want)), in, len(want), len(got))
 		}
 	})
 
